@@ -79,7 +79,7 @@ Definition c18_run (input : list Z) : list Z :=
                                    ++ (match j_ops p with Some l => 1 :: put_lp (map c18_op_code l) | None => [0; 0] end)
                                    ++ [match jwk_to_public p with Some q => zb (jwk_eqb_shallow p q) | None => 0 end]
                        end)
-                      ++ put_lp (c18_ids (jwk_thumbprint_input k))
+                      ++ put_lp (c18_ids (jwk_thumbprint_input k)) ++ put_lp (c18_json_members k)
                   end
               | _ => ERR_DECODE
               end
@@ -90,6 +90,21 @@ Definition c18_run (input : list Z) : list Z :=
     else if kind =? 2 then
       match r with
       | k0 :: ops => c18_describe (jwk_new (c18_kty k0)) ++ c18_setters (length ops) ops (jwk_new (c18_kty k0))
+      | _ => ERR_DECODE
+      end
+    else if kind =? 3 then
+      (* conversion from the foreign key type: declared kty, shape (0 elliptic curve, 1 octet key pair), private, x5u (0 none 1 url 2 not a url), kid *)
+      match r with
+      | [decl; shape; priv; x5u; kid] =>
+          let d := if bz priv then Some 1004 else None in
+          let f := {| f_declared := c18_kty decl; f_params := if shape =? 0 then FEc 1001 1002 1003 d else FOkp 1001 1002 d;
+                      f_kid := if bz kid then Some 1023 else None;
+                      f_x5u := if x5u =? 0 then None else Some (x5u =? 1, 1024); f_x5c := None; f_x5t := None |} in
+          match jwk_from_foreign false f with
+          | CvOk k => 1 :: c18_describe k ++ put_lp (c18_json_members k)
+          | CvErr => [0]
+          | CvPanic => [-777]
+          end
       | _ => ERR_DECODE
       end
     else ERR_DECODE
